@@ -531,4 +531,21 @@ Section WithFacts.
     do r <- normalize_ctx fuel (root_ctx (set_is_normalized cfg false) schema doc false);
     let '(doc', nerrs) := r in
     Ok {| out_verdict := match nerrs with [] => true | _ => false end; out_doc := doc'; out_errs := nerrs |}.
+
+  (* validated(document, update, normalize, always_return_document): None exactly when validation recorded errors *)
+  Definition api_validated (fuel : nat) (cfg : config) (schema doc : dict) (update normalize always : bool)
+    : res (option dict) :=
+    do o <- api_validate fuel cfg schema doc update normalize;
+    Ok (match out_errs o with
+        | [] => Some (out_doc o)
+        | _ :: _ => if always then Some (out_doc o) else None
+        end).
+
+  (* normalized(document, always_return_document): None exactly when normalization recorded errors *)
+  Definition api_normalized_ret (fuel : nat) (cfg : config) (schema doc : dict) (always : bool) : res (option dict) :=
+    do o <- api_normalized fuel cfg schema doc;
+    Ok (match out_errs o with
+        | [] => Some (out_doc o)
+        | _ :: _ => if always then Some (out_doc o) else None
+        end).
 End WithFacts.
